@@ -154,6 +154,170 @@ def real_write_method(f, index):
     return "none"
 
 
+# ------------------------------------------------------------------ generated C++ of a transform
+CPPT = {"::std::int32_t": "int32", "::std::uint32_t": "uint32",
+        "::std::int64_t": "int64", "::std::uint64_t": "uint64"}
+TYPE_RANGE = {"int32": (-2 ** 31, 2 ** 31 - 1), "uint32": (0, 2 ** 32 - 1),
+              "int64": (-2 ** 63, 2 ** 63 - 1), "uint64": (0, 2 ** 64 - 1)}
+
+
+def cpp_type_for_range(lo, hi):
+    """Independent restatement of the back end's rule (doc comment of
+    `_cpp_integer_type_for_range`: int32, uint32, int64, uint64 in that order)."""
+    for name in ("int32", "uint32", "int64", "uint64"):
+        a, b = TYPE_RANGE[name]
+        if a <= lo and hi <= b:
+            return name
+    return None
+
+
+def int_range(e):
+    t = e.get("type", {}).get("integer")
+    if not t:
+        return None
+    try:
+        return int(t["minimum_value"]), int(t["maximum_value"])
+    except (KeyError, ValueError):
+        return None
+
+
+def typed_body_of(e):
+    """function_body → model expression, the way the back end looks at it: a node typed as a
+    constant (`modulus == "infinity"`) is a literal of its `modular_value`."""
+    t = e.get("type", {}).get("integer")
+    if t and t.get("modulus") == "infinity":
+        return "c%d" % int(t["modular_value"])
+    if "builtin_reference" in e:
+        nm = e["builtin_reference"]["canonical_name"]["object_path"][-1]
+        if nm == "$logical_value":
+            return "lv"
+        raise Unmodelled("builtin " + nm)
+    if "function" in e:
+        f = e["function"]
+        fname = FN_NAME[int(f["function"])]
+        if fname in ("ADDITION", "SUBTRACTION") and len(f.get("args", [])) == 2:
+            return "( b %s %s %s )" % (OPNAME[fname], typed_body_of(f["args"][0]), typed_body_of(f["args"][1]))
+        raise Unmodelled("function " + fname)
+    raise Unmodelled("expression kind %s" % sorted(e))
+
+
+_LIT = __import__("re").compile(
+    r"::emboss::support::Maybe</\*\*/(::std::u?int\d+_t)>\(static_cast</\*\*/::std::u?int\d+_t>\("
+    r"\(?-?\d+U?LL(?: - 1\))?\)\)")
+_LV = "::emboss::support::Maybe</**/decltype(emboss_reserved_local_value)>(emboss_reserved_local_value)"
+_OP = __import__("re").compile(r"::emboss::support::(Sum|Difference)</\*\*/([^<>]*)>\(")
+
+
+def parse_rendered(text, i=0):
+    """Template arguments (IntermediateT, ResultT, LeftT, RightT) of every Sum/Difference
+    call of a rendered transform, preorder.  Returns (list, end index); raises ValueError."""
+    if text.startswith(_LV, i):
+        return [], i + len(_LV)
+    m = _LIT.match(text, i)
+    if m:
+        return [], m.end()
+    m = _OP.match(text, i)
+    if not m:
+        raise ValueError("unrecognised rendering at %r" % text[i:i + 80])
+    targs = tuple(CPPT.get(x.strip(), x.strip()) for x in m.group(2).split(","))
+    a, j = parse_rendered(text, m.end())
+    if not text.startswith(", ", j):
+        raise ValueError("expected second operand at %r" % text[j:j + 40])
+    b, k = parse_rendered(text, j + 2)
+    if not text.startswith(")", k):
+        raise ValueError("expected ) at %r" % text[k:k + 40])
+    return [targs] + a + b, k + 1
+
+
+def camel(name):
+    return "".join(w[:1].upper() + w[1:] for w in name.split("_"))
+
+
+def rendered_transforms(header):
+    """{CamelName: (parameter type, rendered transform text)} of the virtual views that have
+    write methods, read off the generated header."""
+    import re
+    out = {}
+    parts = re.split(r"class EmbossReservedVirtual(\w+)View final \{", header)
+    for k in range(1, len(parts) - 1, 2):
+        body = parts[k + 1]
+        m = re.search(r"bool TryToWrite\((::std::u?int\d+_t) emboss_reserved_local_value\) \{(.*?)\n    \}",
+                      body, re.S)
+        if not m:
+            continue
+        t = re.search(r"const auto emboss_reserved_local_maybe_new_value = (.*?);\n", m.group(2), re.S)
+        if t:
+            out[parts[k]] = (CPPT.get(m.group(1), m.group(1)), t.group(1))
+    return out
+
+
+def check_types(chk, text, fields, header, stats, model_exe):
+    """Type-selection tie: for every transform virtual field the C++ parameter type and the
+    (IntermediateT, ResultT, LeftT, RightT) of every node of the rendered inverse, read off
+    the generated header, against the Lean model (`VWRITE`, `cppTypes`) and against the
+    independent restatement of the rule applied to the IR's bounds."""
+    rend = rendered_transforms(header)
+    lines, meta = [], []
+    for f in fields:
+        wm = f.get("write_method", {})
+        nm = f["name"]["name"]["text"]
+        if "transform" not in wm or nm.startswith("$"):
+            continue
+        rng = int_range(f["read_transform"])
+        stats["winf_types_fields"] += 1
+        if rng is None or camel(nm) not in rend:
+            stats["winf_types_unjudged"] += 1
+            continue
+        param, rtext = rend[camel(nm)]
+        try:
+            real_types, _ = parse_rendered(rtext)
+            body = typed_body_of(wm["transform"]["function_body"])
+        except (ValueError, Unmodelled) as e:
+            stats["winf_types_unparsed"] += 1
+            continue
+        # independent expectation from the IR bounds
+        def walk(e, acc):
+            t = e.get("type", {}).get("integer", {})
+            if t.get("modulus") == "infinity" or "function" not in e:
+                return acc
+            args = e["function"]["args"]
+            rs = [int_range(e)] + [int_range(a) for a in args]
+            acc.append((cpp_type_for_range(min(r[0] for r in rs), max(r[1] for r in rs)),
+                        cpp_type_for_range(*rs[0]), cpp_type_for_range(*rs[1]), cpp_type_for_range(*rs[2])))
+            for a in args:
+                walk(a, acc)
+            return acc
+        exp_types = walk(wm["transform"]["function_body"], [])
+        exp_param = cpp_type_for_range(*rng)
+        chk.count()
+        if (param, real_types) != (exp_param, exp_types):
+            stats["winf_types_failing"] += 1
+            if stats["winf_types_failing"] <= 4:
+                chk.violation("input", {"input": text, "kind_of_input": "winf", "field": nm,
+                                        "observed": "parameter %s, template arguments %s" % (param, real_types),
+                                        "expected": "parameter %s, template arguments %s (type for the hull of "
+                                                    "result and operand ranges / for each range)" % (exp_param, exp_types)})
+        root = int_range(wm["transform"]["function_body"])
+        lines.append("VWRITE %d %d %d %s" % (rng[0], rng[1], rng[0], body))
+        meta.append((nm, param, real_types, root))
+    if model_exe and lines:
+        for (nm, param, real_types, root), ans in zip(meta, common.Model(model_exe).ask(lines)):
+            d = S.parse_line(ans)
+            mt = [] if d.get("types") in (None, "-") else [tuple(x.split("/")) for x in d["types"].split(",")]
+            mr = d.get("range")
+            if d.get("param") != param or mt != real_types or mr != "%d..%d" % root:
+                stats["winf_types_model_disagreements"] += 1
+                if stats["winf_types_model_disagreements"] <= 4:
+                    chk.violation("correspondence", {
+                        "input": text, "kind_of_input": "winf", "field": nm,
+                        "observed": "parameter %s, template arguments %s, range of the inverse %d..%d" % (
+                            (param, real_types) + root),
+                        "model": ans,
+                        "expected": "generated header agrees with the restated type rule; the model differs",
+                        "theorem_or_correspondence": "model_c03 VWRITE (cppTypes/rangeOf) vs header_generator"},
+                        found_input=False)
+
+
 # ------------------------------------------------------------------ the check
 def check_module(chk, text, stats, model_exe):
     """Front-end level comparison for one module.  Returns (ir, struct dict, index) or None."""
@@ -234,9 +398,78 @@ def phys_cfg(ty, nb, order):
     return S.Config("uint" if ty == "UInt" else "int", nb * 8, nb * 8, 0, order, "direct", 1)
 
 
+def resolve_alias(f, byname):
+    """Follow `alias` write methods (an alias accessor returns the target's own view)."""
+    for _ in range(30):
+        wm = f.get("write_method", {})
+        if "alias" not in wm:
+            return f
+        f = byname[strip_name(wm["alias"])[0]]
+    return f
+
+
+def candidate_values(f, byname, physmap, r):
+    """Values for `view.<f>().TryToWrite(v)`: around both ends of the field's own range, the
+    extremes of the C++ parameter type, small numbers, random in range / in type — all values
+    of the parameter type (an out-of-type value would be converted by the call itself)."""
+    tgt = resolve_alias(f, byname)
+    key = ("Top", tgt["name"]["name"]["text"])
+    if key in physmap:
+        ty, nb, _ = physmap[key]
+        k = 8 * nb
+        lo, hi = (0, 2 ** k - 1) if ty == "UInt" else (-(2 ** (k - 1)), 2 ** (k - 1) - 1)
+        a, b = (-2 ** 63, 2 ** 64 - 1)          # IntT is a template parameter there
+    else:
+        rng = int_range(tgt["read_transform"])
+        if rng is None:
+            return []
+        lo, hi = rng
+        a, b = TYPE_RANGE[cpp_type_for_range(lo, hi)]
+    vals = [lo - 1, lo, lo + 1, hi - 1, hi, hi + 1, a, b, a + 1, b - 1, 0, 1, -1, (lo + hi) // 2,
+            lo - 2 ** 31, hi + 2 ** 31, lo - 2 ** 32, hi + 2 ** 32]
+    vals += [r.randint(lo, hi) for _ in range(3)] + [r.randint(a, b) for _ in range(2)]
+    vals += [r.randint(lo - 300, hi + 300) for _ in range(2)]
+    out = [v for v in dict.fromkeys(vals) if a <= v <= b]
+    head, tail = out[:8], out[8:]
+    r.shuffle(tail)
+    return head + tail[:6]
+
+
+WINF_DRIVER = r"""
+static void Hex(const unsigned char *p, size_t n) { for (size_t i = 0; i < n; ++i) std::printf("%02x", p[i]); if (!n) std::printf("-"); }
+template <class T> static typename std::enable_if<std::is_signed<T>::value>::type PrintInt(T x) { std::printf("%lld", static_cast<long long>(x)); }
+template <class T> static typename std::enable_if<!std::is_signed<T>::value>::type PrintInt(T x) { std::printf("%llu", static_cast<unsigned long long>(x)); }
+template <class F> static void Run(F f, unsigned char *buf, size_t n, bool neg, long long sv, unsigned long long uv) {
+  // the value is a value of the parameter type (the harness guarantees it), so the implicit
+  // conversion at the call keeps it
+  const bool could = neg ? f.CouldWriteValue(sv) : f.CouldWriteValue(uv);
+  const bool tried = neg ? f.TryToWrite(sv) : f.TryToWrite(uv);
+  std::printf("could=%d try=%d after=", could, tried); Hex(buf, n);
+  const bool ok = f.Ok();
+  std::printf(" ok=%d rd=", ok);
+  if (ok) PrintInt(f.Read()); else std::printf("-");
+  std::printf("\n");
+}
+int main() {
+  static char line[4096];
+  while (std::fgets(line, sizeof line, stdin)) {
+    int fi; char hex[1024]; char val[64];
+    if (std::sscanf(line, "%d %1023s %63s", &fi, hex, val) != 3) { std::puts("bad-line"); continue; }
+    size_t n = (hex[0] == '-') ? 0 : std::strlen(hex) / 2;
+    unsigned char *buf = new unsigned char[n];
+    for (size_t i = 0; i < n; ++i) { unsigned x; std::sscanf(hex + 2 * i, "%2x", &x); buf[i] = static_cast<unsigned char>(x); }
+    const bool neg = val[0] == '-';
+    const long long sv = neg ? std::strtoll(val, nullptr, 10) : 0;
+    const unsigned long long uv = neg ? 0 : std::strtoull(val, nullptr, 10);
+    auto view = ::vw@IDX@::MakeTopView(@PARAM@buf, n);
+    switch (fi) {
+"""
+
+
 def cpp_part(chk, mods, stats, model_exe):
     """mods: [(idx, text, ir, struct, index, phys)].  Executes the generated virtual write
-    methods and compares with the oracle built from the IR + the scalar spec."""
+    methods and compares with the oracle built from the IR + the scalar spec, and with the
+    Lean model (VWRITE per transform hop, SCALAR at the physical end)."""
     hdir = os.path.join(common.scratch(), "winfhdr")
     os.makedirs(hdir, exist_ok=True)
     r = common.rng("C03-winf-cpp")
@@ -248,6 +481,7 @@ def cpp_part(chk, mods, stats, model_exe):
         with open(os.path.join(hdir, "w%d.emb.h" % idx), "w") as f:
             f.write(header)
         fields = struct["structure"]["field"]
+        check_types(chk, text, fields, header, stats, model_exe)
         order = "le" if "LittleEndian" in text.split("\n")[0] else "be"
         physmap = {("Top", n): (ty, nb, off) for n, ty, nb, off in phys}
         size = sum(p[2] for p in phys)
@@ -292,31 +526,11 @@ def cpp_part(chk, mods, stats, model_exe):
             if ("transform" in wm or "alias" in wm) and not nm.startswith("$"):
                 targets.append(nm)
         has_param = "(p: UInt:8)" in text
-        src = [cppbuild.CHECK_PRELUDE, "#include <cstdint>\n#include <cstring>\n",
-               '#include "w%d.emb.h"\n' % idx, """
-static void Hex(const unsigned char *p, size_t n) { for (size_t i = 0; i < n; ++i) std::printf("%02x", p[i]); }
-template <class F> static void Run(F f, unsigned char *buf, size_t n, long long v) {
-  const bool could = f.CouldWriteValue(v);
-  const bool tried = f.TryToWrite(v);
-  std::printf("could=%d try=%d after=", could, tried); Hex(buf, n);
-  const bool ok = f.Ok();
-  std::printf(" ok=%d rd=", ok);
-  if (ok) std::printf("%lld", static_cast<long long>(f.Read())); else std::printf("-");
-  std::printf("\\n");
-}
-int main() {
-  static char line[4096];
-  while (std::fgets(line, sizeof line, stdin)) {
-    int fi; char hex[1024]; long long v;
-    if (std::sscanf(line, "%d %1023s %lld", &fi, hex, &v) != 3) { std::puts("bad-line"); continue; }
-    size_t n = std::strlen(hex) / 2;
-    unsigned char *buf = new unsigned char[n];
-    for (size_t i = 0; i < n; ++i) { unsigned x; std::sscanf(hex + 2 * i, "%2x", &x); buf[i] = static_cast<unsigned char>(x); }
-    auto view = ::vw@IDX@::MakeTopView(@PARAM@buf, n);
-    switch (fi) {
-""".replace("@IDX@", str(idx)).replace("@PARAM@", "7, " if has_param else "")]
+        src = [cppbuild.CHECK_PRELUDE, "#include <cstdint>\n#include <cstdlib>\n#include <cstring>\n#include <type_traits>\n",
+               '#include "w%d.emb.h"\n' % idx,
+               WINF_DRIVER.replace("@IDX@", str(idx)).replace("@PARAM@", "7, " if has_param else "")]
         for i, nm in enumerate(targets):
-            src.append("      case %d: Run(view.%s(), buf, n, v); break;\n" % (i, nm))
+            src.append("      case %d: Run(view.%s(), buf, n, neg, sv, uv); break;\n" % (i, nm))
         src.append("      default: std::puts(\"bad-field\");\n    }\n    std::fflush(stdout);\n"
                    "    delete[] buf;\n  }\n  return 0;\n}\n")
         jobs.append(dict(src_text="".join(src), name="winf%d" % idx, std="c++17", extra=("-I" + hdir,)))
@@ -327,77 +541,156 @@ int main() {
             raise common.InfraError("winf driver does not compile:\n%s\n%s" % (plan[1], log[:3000]))
     for (binary, _), (idx, text, targets, byname, physmap, size, order) in zip(built, plans):
         lines, meta = [], []
-        for k in chk.known:      # pinned inputs of the open write-inference findings
-            pin = k.get("input") if isinstance(k.get("input"), dict) else {}
-            if k.get("property") == chk.prop and k.get("status") == "open" and \
-                    pin.get("kind") == "winf" and pin.get("emb") == text and pin["field"] in targets:
+        for pin in pinned_winf(chk):      # pinned inputs (open findings, fixed ones, corpus)
+            if pin.get("emb") == text and pin["field"] in targets:
                 lines.append("%d %s %d" % (targets.index(pin["field"]), pin["data"], pin["value"]))
                 meta.append((pin["field"], list(bytes.fromhex(pin["data"])), pin["value"]))
         for i, nm in enumerate(targets):
-            for _ in range(10):
+            for v in candidate_values(byname[("Top", nm)], byname, physmap, r):
                 data = [r.getrandbits(8) for _ in range(size)]
-                v = r.choice([0, 1, -1, 5, 100, 127, 128, 255, 256, 300, -128, -129, 32767, 65535,
-                              r.randint(-400, 700), r.randint(-70000, 70000)])
+                if r.random() < 0.15:      # truncated buffer: some field's bytes are missing
+                    data = data[:r.randrange(size)]
                 lines.append("%d %s %d" % (i, S.hexs(data), v))
                 meta.append((nm, data, v))
         res = cppbuild.run(binary, "\n".join(lines) + "\n", timeout=300)
         out = res.out.split("\n")
         if res.kind != "ok":
-            if res.kind == "sanitizer" and "signed integer overflow" in res.err:
-                stats["f3_ub_seen"] += 1      # candidate finding F3, property C04
-                continue
             k = len([o for o in out if o.startswith("could=")])
             nm, data, v = meta[min(k, len(meta) - 1)]
             chk.violation("input", {"input": text, "kind_of_input": "winf", "field": nm,
                                     "data": S.hexs(data), "value": v,
                                     "observed": "%s: %s" % (res.kind, res.err[-1200:]),
                                     "expected": "no sanitizer report / tripped runtime check"})
-            continue
-        for (nm, data, v), rl in zip(meta, out):
+            out = [o for o in out if o.startswith("could=")]    # judge what was answered before
+        preds = model_predict(model_exe, meta, byname, physmap, order) if model_exe else [None] * len(meta)
+        for (nm, data, v), rl, pred in zip(meta, out, preds):
             chk.count()
             exp = expect_virtual_write(nm, data, v, byname, physmap, order)
             stats["winf_cpp_cases"] += 1
+            if len(data) < size:
+                stats["winf_cpp_truncated_buffer"] += 1
             if exp is None:
                 stats["winf_cpp_unjudged"] += 1
                 continue
-            if rl != exp:
-                key = wrap_finding_key(nm, v, byname, physmap)
-                if chk.known_finding(key) is None:
-                    stats["winf_cpp_failing"] += 1
-                    if stats["winf_cpp_failing"] > 6:
-                        continue
+            stats["winf_cpp_" + rl.split(" after=")[0].replace(" ", ",")] += 1
+            failing = rl != exp
+            if failing:
+                stats["winf_cpp_failing"] += 1
+                if stats["winf_cpp_failing"] <= 6:
+                    chk.violation("input", {"input": text, "kind_of_input": "winf", "field": nm,
+                                            "data": S.hexs(data), "value": v, "observed": rl,
+                                            "expected": exp})
+            if pred is not None and rl.split(" ok=")[0] != pred:
+                stats["winf_cpp_model_disagreements"] += 1
+                if not failing and stats["winf_cpp_model_disagreements"] <= 4:
+                    chk.violation("correspondence", {
+                        "input": text, "kind_of_input": "winf", "field": nm, "data": S.hexs(data),
+                        "value": v, "observed": rl, "model": pred,
+                        "expected": "generated write method satisfies the oracle here; the model differs",
+                        "theorem_or_correspondence": "model_c03 VWRITE+SCALAR vs generated virtual write methods"},
+                        found_input=False)
+
+
+def pinned_winf(chk):
+    """Pinned write-inference inputs: findings of this property (open *and* fixed: a fixed
+    entry suppresses nothing, its input stays in reach) and corpus/C03/*.json."""
+    out = []
+    for k in chk.known:
+        pin = k.get("input") if isinstance(k.get("input"), dict) else {}
+        if k.get("property") == chk.prop and pin.get("kind") == "winf":
+            out.append(pin)
+    cdir = os.path.join(common.VERIF, "corpus", chk.prop)
+    if os.path.isdir(cdir):
+        for fn in sorted(os.listdir(cdir)):
+            if fn.endswith(".json"):
+                pin = json.load(open(os.path.join(cdir, fn)))
+                if pin.get("kind") == "winf" and pin not in out:
+                    out.append(pin)
+    return out
+
+
+def model_predict(model_exe, cases, byname, physmap, order):
+    """`could=… try=… after=…` predicted by the Lean model for each (field, buffer, value):
+    one VWRITE per transform hop (range check + the inverse as the C++ computes it), SCALAR
+    for the physical field at the end; `[requires]` through the oracle's evaluator (ValueIsOk
+    is abstract in the model).  None = not predicted."""
+    st = [{"cur": byname[("Top", nm)], "u": v, "done": None} for nm, _data, v in cases]
+    model = common.Model(model_exe)
+    for _round in range(24):
+        lines, who = [], []
+        for i, s_ in enumerate(st):
+            if s_["done"] is not None:
+                continue
+            data = cases[i][1]
+            # walk requires / aliases down to the next transform or the physical field
+            while True:
+                cur = s_["cur"]
+                key = ("Top", cur["name"]["name"]["text"])
+                if key in physmap:
+                    ty, nb, off = physmap[key]
+                    u = s_["u"]
+                    cont = data[off:off + nb] if off + nb <= len(data) else []
+                    argt = "i64" if -2 ** 63 <= u < 2 ** 63 else "u64"
+                    lines.append(S.model_line(phys_cfg(ty, nb, order), cont, argt, u, "opt"))
+                    who.append((i, "phys"))
+                    break
+                rq = requires_ok(cur, s_["u"])
+                if rq is None:
+                    s_["done"] = "unpredicted"
+                    break
+                if not rq:
+                    s_["done"] = "refused"
+                    break
+                wm = cur["write_method"]
+                if "alias" in wm:
+                    s_["cur"] = byname[strip_name(wm["alias"])[0]]
+                    continue
+                if "transform" in wm:
+                    rng = int_range(cur["read_transform"])
+                    try:
+                        body = typed_body_of(wm["transform"]["function_body"])
+                    except Unmodelled:
+                        rng = None
+                    if rng is None:
+                        s_["done"] = "unpredicted"
+                        break
+                    lines.append("VWRITE %d %d %d %s" % (rng[0], rng[1], s_["u"], body))
+                    who.append((i, "transform"))
+                    break
+                s_["done"] = "unpredicted"
+                break
+        if not lines:
+            break
+        for (i, kind), ans in zip(who, model.ask(lines)):
+            s_ = st[i]
+            d = S.parse_line(ans)
+            if kind == "phys":
+                if "could" not in d or d.get("try") not in ("0", "1"):
+                    s_["done"] = "model: " + ans
+                    continue
+                data = cases[i][1]
+                after = list(data)
+                if d["try"] == "1":
+                    ty, nb, off = physmap[("Top", s_["cur"]["name"]["name"]["text"])]
+                    after[off:off + nb] = list(bytes.fromhex(d["after"]))
+                s_["done"] = "could=%s try=%s after=%s" % (d["could"], d["try"], S.hexs(after))
+            else:
+                if d.get("check") == "0":
+                    s_["done"] = "refused"
+                elif d.get("check") == "1" and d.get("inv", "").lstrip("-").isdigit():
+                    s_["u"] = int(d["inv"])
+                    s_["cur"] = byname[strip_name(s_["cur"]["write_method"]["transform"]["destination"])[0]]
                 else:
-                    stats["winf_known_finding_cases"] += 1
-                chk.violation("input", {"input": text, "kind_of_input": "winf", "field": nm,
-                                        "data": S.hexs(data), "value": v, "observed": rl,
-                                        "expected": exp}, key=key)
-
-
-def wrap_finding_key(nm, v, byname, physmap):
-    """Narrow predicate of the open finding `virtual-write-inverse-wraps-in-unsigned-
-    destination-type`: following the write chain with exact integers, the value that would
-    have to be stored in a 32- or 64-bit UInt destination is negative or too large (the C++
-    computes it modulo 2^32 / 2^64 and accepts it)."""
-    cur = byname[("Top", nm)]
-    u = v
-    for _ in range(20):
-        key = ("Top", cur["name"]["name"]["text"])
-        if key in physmap:
-            ty, nb, _off = physmap[key]
-            if ty == "UInt" and nb in (4, 8) and (u < 0 or u >= 2 ** (8 * nb)):
-                return "virtual-write-inverse-wraps-in-unsigned-destination-type"
-            return None
-        wm = cur.get("write_method", {})
-        if "alias" in wm:
-            cur = byname[strip_name(wm["alias"])[0]]
-        elif "transform" in wm:
-            u = py_eval(wm["transform"]["function_body"], {}, u)
-            if u is None:
-                return None
-            cur = byname[strip_name(wm["transform"]["destination"])[0]]
+                    s_["done"] = "model: " + ans
+    out = []
+    for s_, (nm, data, v) in zip(st, cases):
+        if s_["done"] == "refused":
+            out.append("could=0 try=0 after=%s" % S.hexs(data))
+        elif s_["done"] in (None, "unpredicted"):
+            out.append(None)
         else:
-            return None
-    return None
+            out.append(s_["done"])
+    return out
 
 
 def requires_ok(f, v):
@@ -439,18 +732,20 @@ def expect_virtual_write(nm, data, v, byname, physmap, order):
             cur = byname[strip_name(wm["alias"])[0]]
         elif "transform" in wm:
             u = py_eval(wm["transform"]["function_body"], {}, u)
-            if u is None or abs(u) >= 2 ** 31:
+            if u is None:
                 return None
             cur = byname[strip_name(wm["transform"]["destination"])[0]]
         else:
             return None
     ty, nb, off = physmap[("Top", cur["name"]["name"]["text"])]
     cfg = phys_cfg(ty, nb, order)
-    cont = data[off:off + nb]
+    present = off + nb <= len(data)        # the destination's bytes are in the buffer
+    cont = data[off:off + nb] if present else []
     sp = S.spec(cfg, cont, "i64", u)
     could = chain_ok and sp["could"]
+    tried = could and present
     after = list(data)
-    if could:
+    if tried:
         after[off:off + nb] = sp["after"]
     # read back the virtual field from the resulting buffer; a dependency whose [requires]
     # fails makes the dependent value unknown (not Ok)
@@ -460,6 +755,8 @@ def expect_virtual_write(nm, data, v, byname, physmap, order):
         key = ("Top", fd["name"]["name"]["text"])
         if key in physmap:
             t2, n2, o2 = physmap[key]
+            if o2 + n2 > len(buf):
+                return BAD                  # bytes missing: the field (and what reads it) is not Ok()
             s2 = S.spec(phys_cfg(t2, n2, order), buf[o2:o2 + n2], "i64", 0)
             return s2["rd"]
         if depth > 20:
@@ -493,23 +790,24 @@ def expect_virtual_write(nm, data, v, byname, physmap, order):
     if rd is None:
         return None
     ok = rd is not BAD
-    return "could=%d try=%d after=%s ok=%d rd=%s" % (could, could, S.hexs(after), ok, rd if ok else "-")
+    return "could=%d try=%d after=%s ok=%d rd=%s" % (could, tried, S.hexs(after), ok, rd if ok else "-")
 
 
 def run_winf(chk, tier, model_exe, stats, budget="run"):
     r = common.rng("C03-winf-" + tier + budget)
     n = 60 if tier == "quick" else 600
-    n_cpp = 2 if tier == "quick" else 16
+    n_cpp = 6 if tier == "quick" else 24
     mods = []
     # the example of the source comment first
     corpus = [('[$default byte_order: "LittleEndian"]\n[(cpp) namespace: "vw9000"]\nstruct Top:\n'
                '  0 [+4] Int f0\n  let v0 = 2 + ((3 - f0) - 10)\n  let v1 = v0\n  let v2 = v1 + 1\n',
                [("f0", "Int", 4, 0)], 9000)]
-    for k in chk.known:          # modules of the pinned write-inference findings
-        pin = k.get("input") if isinstance(k.get("input"), dict) else {}
-        if k.get("property") == chk.prop and k.get("status") == "open" and pin.get("kind") == "winf":
-            corpus.append((pin["emb"], [("f0", "UInt", 4, 0)], 9001 + len(corpus) - 1))
+    for pin in pinned_winf(chk):   # modules of the pinned write-inference inputs (findings, corpus)
+        if all(pin["emb"] != c[0] for c in corpus):
+            corpus.append((pin["emb"], [tuple(p) for p in pin.get("phys", [["f0", "UInt", 4, 0]])],
+                           int(pin["emb"].split('namespace: "vw')[1].split('"')[0])))
     n_cpp += len(corpus)
+    types_only, n_types_only = 0, (16 if tier == "quick" else 10 ** 6)
     for i in range(n):
         if i < len(corpus):
             text, phys, idx = corpus[i]
@@ -520,6 +818,12 @@ def run_winf(chk, tier, model_exe, stats, budget="run"):
         if got is not None and len(mods) < n_cpp:
             ir, struct, index = got
             mods.append((idx, text, ir, struct, index, phys))
+        elif got is not None and types_only < n_types_only:
+            # type-selection tie only (header generated, not compiled)
+            types_only += 1
+            header, herr = emb.generate_header(got[0])
+            if header is not None and not herr:
+                check_types(chk, text, got[1]["structure"]["field"], header, stats, model_exe)
     stats["winf_modules"] = n
     if mods:
         cpp_part(chk, mods, stats, model_exe)
